@@ -400,6 +400,12 @@ def base_programs():
     P.append(("strict-nested-renamed-both", prog([fn("a", ["u"], ["xx"], types=typed("u", xx=BOOL)),
                                                   gnode("si", copy.deepcopy(sinner), ren=[("x", "xx")], oren=[("y", "yy")]),
                                                   fn("c", ["yy"], ["w"], types=typed("w", yy=opt(T("list"))))], strict=True)))
+    # the wrapper EXCHANGES the names of two inner outputs of different types (one with_outputs call): every exposed name
+    # carries the annotation of the inner output it is wired to
+    swin = prog([fn("p", ["x"], ["y"], types=typed("x", y=T("list", INT))), fn("q", ["x"], ["z"], types=typed("x", z=STR))], name="sw", strict=True)
+    P.append(("strict-nested-swapped-out", prog([fn("a", ["u"], ["x"], types=typed("u", x=BOOL)),
+                                                 gnode("sw", swin, oren=[("y", "z"), ("z", "y")]),
+                                                 fn("c", ["y", "z"], ["w"], types=typed("w", y=STR, z=opt(T("list"))))], strict=True)))
     P.append(("strict-explicit", prog([fn("a", ["x"], ["m"], types=typed("xm")), fn("b", ["m"], ["m"], types=typed("m")),
                                        fn("c", ["m"], ["w"], types=typed("w", m=T("any")))],
                                       edges=[edge("a", "b"), edge("b", "c", ["m"])], strict=True)))
